@@ -318,7 +318,7 @@ def die_grid_family(rng, P, large=False):
     rest = rest[:14]
     tagpool = rng.sample(TAGS, 3)
     out = []
-    fam_refine = [rng.choice([1.5, 2.0, 3.0]), rng.choice([1, 4, 9])] if rng.random() < 0.3 else None
+    fam_refine = [rng.choice([1.5, 2.0, 3.0]), rng.choice([1, 4, 9])] if rng.random() < 0.5 else None
     for n, occ in [head] + rest:
         # merge horizontally adjacent occupied cells into one region now and then
         rects, used = [], set()
@@ -494,6 +494,13 @@ def rel_alloc(rng, d):
         c2[k][1][j][1] = rng.choice([q for q in (F(0), F(1, 8), F(1, 4), F(1, 2), F(3, 4), F(1))
                                      if q != c2[k][1][j][1]])
         out.append(mk(c2, ops, "onefield"))
+    # the same rectangles and modules with every ratio low (each cell is refined) / high (none is)
+    for q, note in ((F(1, 8), "ratios-low"), (F(1), "ratios-high")):
+        c2 = copy.deepcopy(cells)
+        for c in c2:
+            if not c[0][4]:
+                c[1] = [[m, q] for m, _ in c[1][:1]] or [["M1", q]]
+        out.append(mk(c2, ops, note))
     rs = [c[0] for c in cells]
     x0, y0, x1, y1 = bbox4(rs)
     c2 = copy.deepcopy(cells)
@@ -667,6 +674,8 @@ def rel_post(rng, q):
     if q["k"] == "ineq":
         out.append(dict(q, decomp=not q["decomp"]))
         out.append(dict(q, b=q["b"] + rng.choice([-2, -1, 1, 2])))
+        tot = sum(abs(t[2]) for t in q["lt"] + q["rt"])
+        out.append(dict(q, b=rng.choice([-tot - 1, tot + 1])))             # trivially true / trivially false
         out.append(dict(q, op=rng.choice([o for o in FLIP if o != q["op"] and (o != "EQ2" or q.get("via") != "operator")]),
                         via="ctor"))
         # the same inequality written the other way round
